@@ -9,6 +9,7 @@ import (
 var (
 	ErrDupPubKey          = errors.New("duplicated share public key")
 	ErrDupPubKeyIndex     = errors.New("duplicated public key index")
+	ErrForeignPubKey      = errors.New("public key not announced by the member whose index it claims")
 	ErrCanNotFindID       = errors.New("can't find id in group IDs")
 	ErrCasting            = errors.New("casting failed")
 	ErrRespNotApproval    = errors.New("response not approval")
